@@ -1,7 +1,8 @@
 PROP = dict(
     gen=["tpdulayouts", "smsoctets"],
-    proof_files=["Properties/C19.v", "Proofs/TpduRoundtrip.v", "Proofs/TpduAlnum.v", "Proofs/SmsOctetTables.v"],
+    proof_files=["Properties/C19.v", "Proofs/TpduRoundtrip.v", "Proofs/TpduAlnum.v", "Proofs/SmsOctetTables.v", "Proofs/TpduFlags.v"],
     model_files=["Model/SemiOctet.v", "Model/Tpdu.v", "Model/TpduRun.v", "Spec/Gsm0340.v"],
+    extra_files=["Properties/Ext_Sms.v"],   # the other TPDU types: outside C19, a failure is a note in the evidence, not a violation
     trusted=["Spec/Gsm0340.v: hand transcription of GSM 03.40 9.2.2.1/9.2.2.2/9.1.2.5/9.2.3.x and GSM 03.38 4, 6.1.2.1.1 (each definition cites its clause)",
              "harness/sms_spec.go: Go transliteration of the spec layout (compared with the Coq text in the kernel on every generated TPDU)",
              "Gen/TpduLayouts.v, Gen/SmsOctets.v: struct layouts by reflection and complete 256-row octet tables dumped from the running code (harness/gen_sms.go)"],
@@ -15,7 +16,7 @@ MANIFEST = dict(
     design_ref="DESIGN.md §5 C19",
     technique="Coq proof: symbolic evaluation of the codec model on the spec layout of an arbitrary well-formed TPDU (lists of any admissible length by induction, calendar and octet domains by kernel sweep) + complete 256-row tables from the code + vm_compute correspondence",
     text="Theorems in coq/Properties/C19.v: for every well-formed SMS-DELIVER / SMS-SUBMIT value of the GSM 03.40 layout model outside the listed known classes, "
-         "Unmarshal then Marshal reproduces the octets and the decoded structure carries the standard's values; complete tables for relative validity periods and first octets; "
-         "refutation witnesses for the known classes that remain (alphanumeric address of 7 septets, of 8 septets ending in CR, D16) and for the pre-fix code (D19, D20, D21 length, D22, D23, D24).",
+         "Unmarshal then Marshal reproduces the octets and the decoded structure carries the standard's values, the first-octet parameters under their Go field names included (C19_deliver_flags, C19_submit_flags); complete tables for relative validity periods and first octets; "
+         "refutation witnesses for the known classes that remain (alphanumeric address of 7 septets, of 8 septets ending in CR, D16, DeliverFlags.ReplyPath/UDHIndicator on unused bits) and for the pre-fix code (D19, D20, D21 length, D22, D23, D24).",
     note="Trusted: Coq kernel + vm_compute; the hand-transcribed spec; dumper and printers; Go library code. No axioms.",
 )
